@@ -650,6 +650,15 @@ func (e *Engine) execRun(w *worker, fn *ssa.Function, prefix []int64) *runResult
 func (in *interp) runInits(fn *ssa.Function) {
 	in.inInit = true
 	defer func() { in.inInit = false }()
+	// table-only standard packages are initialised whoever imports them (the chain of initialisers
+	// from the harness package stops at packages whose initialiser is not executed)
+	for _, path := range []string{"unicode/utf8"} {
+		if p := in.eng.Prog.ImportedPackage(path); p != nil {
+			if init := p.Func("init"); init != nil {
+				in.call(&frame{in: in, th: in.sch.cur, fn: fn}, 0, init, nil)
+			}
+		}
+	}
 	if fn.Pkg != nil {
 		if init := fn.Pkg.Func("init"); init != nil {
 			in.call(&frame{in: in, th: in.sch.cur, fn: fn}, 0, init, nil)
